@@ -1,16 +1,19 @@
-import HappyProofs.C08.PipeWStep
+import HappyProofs.C08.PipeWDefault
 /-!
 # C08 part 2b — Queue + QueueDriver + `Server` over every `ConcurrencyModel`, in capacity units
 
-Part A: facts about **every** config, variant and schedule (capacity bookkeeping of the worker).
-Part B: the repaired protocol (`Setting c`) under admissible schedules (`Sched c w0 s as`): nothing
-accepted is discarded, the item-state partition, no poll is granted to a head that does not fit,
-no strand.  Every statement is about `final c s₀ as` for every admissible `as`, i.e. after every
-event of every run.  Part C: /repo HEAD (`current`) falsifies two of the clauses.
+Part A: facts about **every** config and schedule (capacity bookkeeping of the worker).
+Part B: /repo HEAD (`SettingD c`: `admission` off, `wake` on) under every schedule that handles a
+`QueueDispatchedEvent` after its payload (`SchedD c s as`): the five-way item-state partition (a
+request the worker rejects is counted), rejection exactly when the request does not fit, no strand
+while one unit is free.  Part C: the admission proposal (`Setting c`: `admission` and `wake` on) under
+`Sched c w0 s as`: nothing accepted is rejected, no strand for the head's weight.  Every statement
+about `final c s₀ as` holds for every admissible `as`, i.e. after every event of every run.
+Part D: witnesses — the rejection at HEAD, and the strand of the code before `wake`.
 -/
 namespace HappyModel.C08.PipeW
 
-/-! ## Part A — every config, variant and schedule -/
+/-! ## Part A — every config and schedule -/
 
 /-- conservation: the reported units in use are exactly the weights of the items in service -/
 theorem used_eq_in_service_weight (c : WCfg) (lim : Nat) (as : List Act) :
@@ -44,7 +47,7 @@ theorem finish_returns_weight (c : WCfg) (s : WSt) (i : Nat) (it : WItem)
   refine ⟨?_, ?_, ?_⟩ <;>
     simp only [stepFin, hb, pollIfReady_used, pollIfReady_completed, pollIfReady_inService] <;> omega
 
-/-- a start never takes the units in use above the limit (any state, any variant) -/
+/-- a start never takes the units in use above the limit (any state, any config) -/
 theorem start_never_exceeds_limit (c : WCfg) (s : WSt) (i : Nat)
     (h : (stepWork c s i).2 = .started true) :
     (stepWork c s i).1.used ≤ (stepWork c s i).1.limit := by
@@ -65,30 +68,205 @@ theorem in_service_weight_le_limit (c : WCfg) (lim : Nat) (as : List Act)
   have h := final_le c as { limit := lim } hn (Nat.zero_le _)
   exact ⟨h, used_eq_in_service_weight c lim as ▸ h⟩
 
-/-! ## Part B — the repaired protocol under admissible schedules -/
+/-! ## Part B — /repo HEAD (`admission` off, `wake` on) -/
+
+theorem quiescent_no_pending {s : WSt} (hq : quiescent s = true) :
+    ¬ (0 < s.nNotify ∨ 0 < s.nPoll ∨ 0 < s.delivers.length ∨ 0 < s.nDisp ∨ (0 < s.nEmpty ∧ s.recheck = true)) := by
+  simp only [quiescent, Bool.and_eq_true, beq_iff_eq, List.isEmpty_iff] at hq
+  obtain ⟨⟨⟨⟨⟨h1, h2⟩, h3⟩, h4⟩, h5⟩, h6⟩ := hq
+  rintro (g | g | g | g | ⟨g, _⟩)
+  · omega
+  · omega
+  · rw [h5] at g; simp at g
+  · omega
+  · omega
 
 /-- the protocol invariant at the end of an admissible schedule -/
-theorem final_winv {c : WCfg} (st : Setting c) (lim w0 : Nat) (as : List Act)
+theorem final_dinv {c : WCfg} (st : SettingD c) (lim : Nat) (as : List Act)
+    (hs : SchedD c { limit := lim } as) : DInv c (final c { limit := lim } as) :=
+  finalD_inv st as _ hs (dinv_init c lim)
+
+/-- every accepted item is waiting, in transit inside the current instant, in service, completed, or
+    rejected by the worker and counted: the five populations add up to `stats_accepted` -/
+theorem item_state_partition_count {c : WCfg} (st : SettingD c) (lim : Nat) (as : List Act)
+    (hs : SchedD c { limit := lim } as) :
+    let s := final c { limit := lim } as
+    s.acc = s.q.length + (s.delivers.length + s.works.length) + s.inService.length + s.completed + s.rejected := by
+  have h := (final_dinv st lim as hs).count
+  simp only; omega
+
+/-- no strand: whenever the component is quiescent (no protocol event pending, so simulated time is
+    about to pass) with a request waiting, not even one capacity unit is free -/
+theorem no_strand {c : WCfg} (st : SettingD c) (lim : Nat) (as : List Act)
+    (hs : SchedD c { limit := lim } as) :
+    quiescent (final c { limit := lim } as) = true → (final c { limit := lim } as).q ≠ [] →
+      (final c { limit := lim } as).limit < (final c { limit := lim } as).used + 1 := by
+  have h := final_dinv st lim as hs
+  generalize final c { limit := lim } as = s at h
+  intro hq hne
+  by_cases hfit : s.used + 1 ≤ s.limit
+  · exact absurd (h.strand hne hfit) (quiescent_no_pending hq)
+  · omega
+
+/-- … so no waiting request fits into the free capacity -/
+theorem no_waiting_item_fits {c : WCfg} (st : SettingD c) (lim : Nat) (as : List Act)
+    (hs : SchedD c { limit := lim } as) :
+    quiescent (final c { limit := lim } as) = true → ∀ it, it ∈ (final c { limit := lim } as).q →
+      (final c { limit := lim } as).limit < (final c { limit := lim } as).used + wOf c it := by
+  intro hq it hit
+  have h := no_strand st lim as hs hq (List.ne_nil_of_mem hit)
+  have := wOf_pos c it
+  omega
+
+/-- the worker rejects a request only when its weight does not fit under the limit in force -/
+theorem rejected_only_when_not_fitting (c : WCfg) (s : WSt) (i : Nat)
+    (h : (stepWork c s i).2 = .started false) :
+    ∃ it, byId s.works i = some it ∧ s.limit < s.used + wOf c it := by
+  cases hb : byId s.works i with
+  | none => simp [stepWork, hb] at h
+  | some it =>
+    by_cases hf : fits s (wOf c it) = true
+    · simp [stepWork, hb, hf] at h
+    · exact ⟨it, rfl, by have := mt (fits_iff s (wOf c it)).2 hf; omega⟩
+
+/-- a rejected request is counted once, takes no capacity, never starts and never completes -/
+theorem rejected_is_counted_and_takes_nothing (c : WCfg) (s : WSt) (i : Nat)
+    (h : (stepWork c s i).2 = .started false) :
+    (stepWork c s i).1.rejected = s.rejected + 1 ∧ (stepWork c s i).1.used = s.used ∧
+      (stepWork c s i).1.inService = s.inService ∧ (stepWork c s i).1.completed = s.completed := by
+  cases hb : byId s.works i with
+  | none => simp [stepWork, hb] at h
+  | some it =>
+    by_cases hf : fits s (wOf c it) = true
+    · simp [stepWork, hb, hf] at h
+    · have hf' : fits s (wOf c it) = false := by simpa using hf
+      simp only [stepWork, hb, hf', Bool.false_eq_true, if_false, pollIfReady_rejected, pollIfReady_used,
+        pollIfReady_inService, pollIfReady_completed, and_self]
+
+/-- a request that fits is started, never rejected -/
+theorem fitting_item_is_started (c : WCfg) (s : WSt) (i : Nat) (it : WItem)
+    (hb : byId s.works i = some it) (hf : s.used + wOf c it ≤ s.limit) :
+    (stepWork c s i).2 = .started true := by
+  simp only [stepWork, hb, (fits_iff s (wOf c it)).2 hf, if_true]
+
+/-! ### non-vacuity (HEAD) -/
+
+def cfgH : WCfg := { conc := .weighted }
+def cfgHL : WCfg := { conc := .weighted, kind := .lifo }
+def cfgDy : WCfg := { conc := .dynamic 1 (some 4) }
+
+example : SettingD cfgH ∧ SettingD cfgHL ∧ SettingD cfgDy := ⟨⟨rfl, rfl⟩, ⟨rfl, rfl⟩, ⟨rfl, rfl⟩⟩
+
+/-- weighted pool of 3 units behind a FIFO queue, weights 2, 2, 1, 1: item 0 starts; one unit is free,
+    so the poll is granted and hands out item 1 (2 units): the worker rejects and counts it (event 13);
+    the lighter item 2 behind it starts (event 17) and fills the pool; item 3 arrives and waits, the
+    instant ends quiescent; `fin 0` frees two units and item 3 starts -/
+def schedX : List Act :=
+  [.arr ⟨0, 0, 2⟩, .notify, .poll, .deliver (some 0), .work 0, .disp, .poll, .deliver none,
+   .arr ⟨1, 0, 2⟩, .arr ⟨2, 0, 1⟩, .notify, .poll, .deliver (some 1), .work 1, .disp,
+   .poll, .deliver (some 2), .work 2, .disp, .arr ⟨3, 0, 1⟩, .notify,
+   .fin 0, .poll, .deliver (some 3), .work 3, .disp, .poll, .deliver none]
+
+example : SchedD cfgH { limit := 3 } schedX ∧ NoLower cfgH { limit := 3 } schedX := by decide
+example : (run cfgH { limit := 3 } schedX).map (·.1) =
+    [.accepted true, .polled true, .popped (some 0), .done, .started true, .polled true, .popped none,
+     .polled false, .accepted true, .accepted true, .polled true, .popped (some 1), .done, .started false,
+     .polled true, .popped (some 2), .done, .started true, .polled false, .accepted true, .polled false,
+     .done, .popped (some 3), .done, .started true, .polled true, .popped none, .polled false] := by decide
+/-- the five populations at the end (0 + 0 + 2 + 1 + 1 = 4) and in mid-instant (event 13 done:
+    1 waiting, 0 + 0 in transit, 1 in service, 0 completed, 1 rejected) -/
+example : let s := final cfgH { limit := 3 } schedX
+    s.rejected = 1 ∧ s.acc = 4 ∧ s.q = [] ∧ s.inService = [⟨2, 0, 1⟩, ⟨3, 0, 1⟩] ∧ s.completed = 1 ∧
+    s.used = 2 ∧ s.acc = s.q.length + (s.delivers.length + s.works.length) + s.inService.length +
+      s.completed + s.rejected := by decide
+example : let s := final cfgH { limit := 3 } (schedX.take 14)
+    s.q = [⟨2, 0, 1⟩] ∧ s.inService = [⟨0, 0, 2⟩] ∧ s.rejected = 1 ∧ s.acc = 3 ∧ s.nDisp = 1 := by decide
+/-- hypotheses and conclusion of `no_strand` / `no_waiting_item_fits`, computed (after event 20) -/
+example : let s := final cfgH { limit := 3 } (schedX.take 21)
+    quiescent s = true ∧ s.q = [⟨3, 0, 1⟩] ∧ s.used = 3 ∧ s.limit = 3 ∧
+    s.limit < s.used + wOf cfgH ⟨3, 0, 1⟩ := by decide
+/-- the three step-level theorems on that run: event 13 rejects item 1 (2 units, 1 free), event 17
+    starts item 2 (1 unit, 1 free) -/
+example : let s := final cfgH { limit := 3 } (schedX.take 13)
+    (stepWork cfgH s 1).2 = .started false ∧ byId s.works 1 = some ⟨1, 0, 2⟩ ∧ s.used = 2 ∧ s.limit = 3 ∧
+    (stepWork cfgH s 1).1.rejected = s.rejected + 1 ∧ (stepWork cfgH s 1).1.used = 2 := by decide
+example : let s := final cfgH { limit := 3 } (schedX.take 17)
+    byId s.works 2 = some ⟨2, 0, 1⟩ ∧ s.used + wOf cfgH ⟨2, 0, 1⟩ ≤ s.limit ∧
+    (stepWork cfgH s 2).2 = .started true ∧ (stepWork cfgH s 2).1.used = 3 := by decide
+/-- `finish_returns_weight` on that run: event 21 -/
+example : let s := final cfgH { limit := 3 } (schedX.take 21)
+    byId s.inService 0 = some ⟨0, 0, 2⟩ ∧ (stepFin cfgH s 0).1.used = 1 := by decide
+
+/-- a LIFO queue with mixed weights 2, 3, 1 in a pool of 4: the newest (lightest) overtakes and
+    starts, the 3-unit item is handed out beside one free unit and rejected -/
+def schedLX : List Act :=
+  [.arr ⟨0, 0, 2⟩, .notify, .poll, .deliver (some 0), .work 0, .disp, .arr ⟨1, 0, 3⟩, .arr ⟨2, 0, 1⟩,
+   .poll, .notify, .deliver (some 2), .work 2, .disp, .poll, .deliver (some 1), .work 1, .disp,
+   .poll, .deliver none]
+
+example : SchedD cfgHL { limit := 4 } schedLX := by decide
+example : let s := final cfgHL { limit := 4 } schedLX
+    s.inService = [⟨0, 0, 2⟩, ⟨2, 0, 1⟩] ∧ s.used = 3 ∧ s.rejected = 1 ∧ s.acc = 3 ∧ s.q = [] ∧
+    quiescent s = true := by decide
+
+/-- `DynamicConcurrency` in `[1, 4]`: item 1 waits beside a full single slot; `set_limit(2)` leaves a
+    notify pending (event 8), the driver polls and item 1 starts in the same run; `set_limit(9)` clamps
+    to 4; `set_limit(1)` with two requests in service leaves `used = 2 > limit = 1` until they
+    finish — the reason `in_service_weight_le_limit` asks for `NoLower` -/
+def schedDyn : List Act :=
+  [.arr ⟨0, 0, 1⟩, .notify, .poll, .deliver (some 0), .work 0, .disp, .arr ⟨1, 0, 1⟩, .notify, .limit 2,
+   .notify, .poll, .deliver (some 1), .work 1, .disp, .limit 9, .limit 1, .fin 0, .fin 1, .poll, .deliver none]
+
+example : SchedD cfgDy { limit := 1 } schedDyn := by decide
+example : (run cfgDy { limit := 1 } schedDyn).map (·.1) =
+    [.accepted true, .polled true, .popped (some 0), .done, .started true, .polled false, .accepted true,
+     .polled false, .polled true, .polled true, .popped (some 1), .done, .started true, .polled false,
+     .polled false, .polled false, .done, .done, .popped none, .polled false] := by decide
+example : NoLower cfgDy { limit := 1 } (schedDyn.take 15) ∧
+    ¬ NoLower cfgDy { limit := 1 } (schedDyn.take 16) := by decide
+example : (final cfgDy { limit := 1 } (schedDyn.take 15)).limit = 4 ∧
+    (final cfgDy { limit := 1 } (schedDyn.take 15)).used = 2 := by decide
+example : let s := final cfgDy { limit := 1 } (schedDyn.take 16)
+    s.limit = 1 ∧ s.used = 2 ∧ s.used = sumW cfgDy s.inService := by decide
+example : (final cfgDy { limit := 1 } schedDyn).completed = 2 ∧
+    quiescent (final cfgDy { limit := 1 } schedDyn) = true := by decide
+/-- lowering the limit while a dequeued request is on its way to the worker is inside `SchedD`: the
+    worker rejects and counts it (`min_limit = 0`) -/
+example : let c : WCfg := { conc := .dynamic 0 (some 4) }
+    let as : List Act := [.arr ⟨0, 0, 1⟩, .notify, .poll, .deliver (some 0), .limit 0, .work 0, .disp]
+    SchedD c { limit := 1 } as ∧ (final c { limit := 1 } as).rejected = 1 ∧
+    (final c { limit := 1 } as).acc = 1 ∧ quiescent (final c { limit := 1 } as) = true := by decide
+/-- the schedule hypothesis on `disp` is needed: handled before its payload, a second request is in
+    flight and `wf` (`works.length ≤ nDisp`) fails -/
+example : let as : List Act := [.arr ⟨0, 0, 1⟩, .arr ⟨1, 0, 1⟩, .notify, .poll, .deliver (some 0), .disp]
+    ¬ SchedD cfgH { limit := 2 } as ∧ (final cfgH { limit := 2 } as).works.length = 1 ∧
+    (final cfgH { limit := 2 } as).nDisp = 0 := by decide
+
+/-! ## Part C — the admission proposal (`admission` and `wake` on) under `Sched` -/
+
+/-- the protocol invariant at the end of an admissible schedule -/
+theorem admission_final_winv {c : WCfg} (st : Setting c) (lim w0 : Nat) (as : List Act)
     (hs : Sched c w0 { limit := lim } as) : WInv c w0 (final c { limit := lim } as) :=
   final_inv st as _ hs (inv_init c w0 lim)
 
-/-- an item the queue accepted is never discarded by the worker (`requests_rejected` stays 0) -/
-theorem no_accepted_item_discarded {c : WCfg} (st : Setting c) (lim w0 : Nat) (as : List Act)
+/-- an item the queue accepted is never rejected by the worker (`requests_rejected` stays 0) -/
+theorem admission_no_accepted_item_discarded {c : WCfg} (st : Setting c) (lim w0 : Nat) (as : List Act)
     (hs : Sched c w0 { limit := lim } as) : (final c { limit := lim } as).rejected = 0 :=
-  (final_winv st lim w0 as hs).rej
+  (admission_final_winv st lim w0 as hs).rej
 
 /-- every accepted item is waiting, in transit inside the current instant, in service or
     completed: the four populations add up to `stats_accepted` -/
-theorem item_state_partition_count {c : WCfg} (st : Setting c) (lim w0 : Nat) (as : List Act)
+theorem admission_item_state_partition_count {c : WCfg} (st : Setting c) (lim w0 : Nat) (as : List Act)
     (hs : Sched c w0 { limit := lim } as) :
     let s := final c { limit := lim } as
     s.acc = s.q.length + (s.delivers.length + s.works.length) + s.inService.length + s.completed := by
-  have h := (final_winv st lim w0 as hs).count
+  have h := (admission_final_winv st lim w0 as hs).count
   simp only; omega
 
-/-- the repaired queue grants a poll only for a head that fits into the free capacity (any state) -/
+/-- with `admission` on the queue grants a poll only for a head that fits into the free capacity
+    (any state) -/
 theorem no_poll_granted_without_capacity_for_head (c : WCfg) (s : WSt) (i : Nat)
-    (hv : c.variant = .repaired) (h : (stepPoll c s).2 = .popped (some i)) :
+    (ha : c.admission = true) (h : (stepPoll c s).2 = .popped (some i)) :
     ∃ it, pick c.kind s.q = some it ∧ it.id = i ∧ s.used + wOf c it ≤ s.limit := by
   by_cases hp : s.nPoll = 0
   · simp [stepPoll, hp] at h
@@ -96,39 +274,33 @@ theorem no_poll_granted_without_capacity_for_head (c : WCfg) (s : WSt) (i : Nat)
     | none => simp [stepPoll, hp, hit] at h
     | some it =>
       by_cases had : admits c s it = true
-      · have hfit : s.used + wOf c it ≤ s.limit := by simpa [admits, hv, fits] using had
+      · have hfit : s.used + wOf c it ≤ s.limit := by simpa [admits, ha, fits] using had
         simp only [stepPoll, hp, if_false, hit, had, if_true, Res.popped.injEq, Option.some.injEq] at h
         exact ⟨it, rfl, h, hfit⟩
       · have had' : admits c s it = false := by simpa using had
         simp [stepPoll, hp, hit, had'] at h
 
-/-- no strand: whenever the component is quiescent (no protocol event pending, so simulated time is
-    about to pass), the item the queue would hand out next does not fit into the free capacity -/
-theorem no_strand {c : WCfg} (st : Setting c) (lim w0 : Nat) (as : List Act)
+/-- no strand: whenever the component is quiescent, the item the queue would hand out next does not
+    fit into the free capacity -/
+theorem admission_no_strand {c : WCfg} (st : Setting c) (lim w0 : Nat) (as : List Act)
     (hs : Sched c w0 { limit := lim } as) :
     quiescent (final c { limit := lim } as) = true →
     ∀ it, pick c.kind (final c { limit := lim } as).q = some it →
       (final c { limit := lim } as).limit < (final c { limit := lim } as).used + wOf c it := by
-  have h := final_winv st lim w0 as hs
+  have h := admission_final_winv st lim w0 as hs
   generalize final c { limit := lim } as = s at h
   intro hq it hit
   by_cases hfit : s.used + wOf c it ≤ s.limit
-  · have := h.strand it hit hfit
-    simp only [quiescent, Bool.and_eq_true, beq_iff_eq, List.isEmpty_iff] at hq
-    obtain ⟨⟨⟨⟨⟨h1, h2⟩, h3⟩, h4⟩, h5⟩, h6⟩ := hq
-    rcases this with g | g | g | g | ⟨g, _⟩
-    · omega
-    · omega
-    · rw [h5] at g; simp at g
-    · omega
-    · omega
+  · exact absurd (h.strand it hit hfit) (quiescent_no_pending hq)
   · omega
 
-/-! ### non-vacuity -/
+/-! ### non-vacuity (admission proposal) -/
 
-def cfgW (v : Variant) : WCfg := { variant := v, conc := .weighted }
-def cfgD (v : Variant) : WCfg := { variant := v, conc := .dynamic 1 (some 4) }
-def cfgL : WCfg := { variant := .repaired, conc := .weighted, kind := .lifo }
+def cfgA : WCfg := { conc := .weighted, admission := true }
+def cfgAL : WCfg := { conc := .weighted, admission := true, kind := .lifo }
+def cfgDyA : WCfg := { conc := .dynamic 1 (some 4), admission := true }
+
+example : Setting cfgA ∧ Setting cfgAL ∧ Setting cfgDyA := ⟨⟨rfl, rfl⟩, ⟨rfl, rfl⟩, ⟨rfl, rfl⟩⟩
 
 /-- weighted pool of 3 units behind a FIFO queue, weights 2, 2, 1: item 0 starts; the poll after its
     dispatch finds item 1 (2 units) at the head with one unit free and is answered empty (twice: the
@@ -139,110 +311,89 @@ def schedM : List Act :=
    .arr ⟨1, 0, 2⟩, .arr ⟨2, 0, 1⟩, .poll, .notify, .deliver none, .poll, .deliver none,
    .fin 0, .poll, .deliver (some 1), .work 1, .disp, .poll, .deliver (some 2), .work 2, .disp]
 
-example : Setting (cfgW .repaired) := ⟨rfl⟩
-example : Sched (cfgW .repaired) 0 { limit := 3 } schedM ∧ NoLower (cfgW .repaired) { limit := 3 } schedM := by
-  decide
+example : Sched cfgA 0 { limit := 3 } schedM ∧ NoLower cfgA { limit := 3 } schedM := by decide
 /-- the empty deliveries (events 9 and 12) are answered because the head does not fit … -/
-example : (run (cfgW .repaired) { limit := 3 } schedM).map (·.1) =
+example : (run cfgA { limit := 3 } schedM).map (·.1) =
     [.accepted true, .polled true, .popped (some 0), .done, .started true, .polled true,
      .accepted true, .accepted true, .popped none, .polled false, .polled true, .popped none, .polled false,
      .done, .popped (some 1), .done, .started true, .polled true, .popped (some 2), .done, .started true,
      .polled false] := by decide
 /-- … the instant ends quiescent with the 2-unit head waiting beside one free unit (the hypotheses
-    and the conclusion of `no_strand`, computed) … -/
-example : let s := final (cfgW .repaired) { limit := 3 } (schedM.take 13)
+    and the conclusion of `admission_no_strand`, computed) … -/
+example : let s := final cfgA { limit := 3 } (schedM.take 13)
     quiescent s = true ∧ pick .fifo s.q = some ⟨1, 0, 2⟩ ∧ s.used = 2 ∧ s.limit = 3 ∧
-    s.limit < s.used + wOf (cfgW .repaired) ⟨1, 0, 2⟩ := by decide
+    s.limit < s.used + wOf cfgA ⟨1, 0, 2⟩ := by decide
 /-- … and after `fin 0` it starts; at the end both are in service and the pool is full -/
-example : let s := final (cfgW .repaired) { limit := 3 } schedM
-    s.inService = [⟨1, 0, 2⟩, ⟨2, 0, 1⟩] ∧ s.used = 3 ∧ s.used = sumW (cfgW .repaired) s.inService ∧
+example : let s := final cfgA { limit := 3 } schedM
+    s.inService = [⟨1, 0, 2⟩, ⟨2, 0, 1⟩] ∧ s.used = 3 ∧ s.used = sumW cfgA s.inService ∧
     s.completed = 1 ∧ s.rejected = 0 ∧ s.acc = 3 := by decide
-/-- `start_takes_weight` / `finish_returns_weight` are not vacuous: the start of item 1 (event 16)
-    and the finish of item 0 (event 13) of that run -/
-example : let s := final (cfgW .repaired) { limit := 3 } (schedM.take 16)
-    s.used = sumW (cfgW .repaired) s.inService ∧ (stepWork (cfgW .repaired) s 1).2 = .started true ∧
-    (stepWork (cfgW .repaired) s 1).1.used = s.used + 2 := by decide
-example : let s := final (cfgW .repaired) { limit := 3 } (schedM.take 13)
-    byId s.inService 0 = some ⟨0, 0, 2⟩ ∧ (stepFin (cfgW .repaired) s 0).1.used = 0 := by decide
+/-- `start_takes_weight` is not vacuous: the start of item 1 (event 16) of that run -/
+example : let s := final cfgA { limit := 3 } (schedM.take 16)
+    s.used = sumW cfgA s.inService ∧ (stepWork cfgA s 1).2 = .started true ∧
+    (stepWork cfgA s 1).1.used = s.used + 2 := by decide
 /-- `no_poll_granted_without_capacity_for_head` is not vacuous: the poll of event 14 is granted -/
-example : (stepPoll (cfgW .repaired) (final (cfgW .repaired) { limit := 3 } (schedM.take 14))).2 =
-    .popped (some 1) := by decide
+example : (stepPoll cfgA (final cfgA { limit := 3 } (schedM.take 14))).2 = .popped (some 1) := by decide
 
 /-- a LIFO queue with uniform weight 2 in a pool of 4 (`w0 = 2`): the newest item overtakes -/
 def schedL : List Act :=
   [.arr ⟨0, 0, 2⟩, .notify, .poll, .deliver (some 0), .work 0, .disp, .arr ⟨1, 0, 2⟩, .arr ⟨2, 0, 2⟩,
    .poll, .notify, .deliver (some 2), .work 2, .disp, .fin 0, .poll, .deliver (some 1), .work 1, .disp]
 
-example : Setting cfgL ∧ Sched cfgL 2 { limit := 4 } schedL := ⟨⟨rfl⟩, by decide⟩
-example : (final cfgL { limit := 4 } schedL).inService = [⟨2, 0, 2⟩, ⟨1, 0, 2⟩] ∧
-    (final cfgL { limit := 4 } schedL).used = 4 := by decide
+example : Sched cfgAL 2 { limit := 4 } schedL := by decide
+example : (final cfgAL { limit := 4 } schedL).inService = [⟨2, 0, 2⟩, ⟨1, 0, 2⟩] ∧
+    (final cfgAL { limit := 4 } schedL).used = 4 := by decide
 /-- mixed weights behind a LIFO queue are outside `Sched` (the uniform-weight clause of `Adm`) -/
-example : ¬ Sched cfgL 2 { limit := 4 } [.arr ⟨0, 0, 2⟩, .arr ⟨1, 0, 1⟩] := by decide
-
-/-- `DynamicConcurrency` in `[1, 4]`: item 1 waits beside a full single slot; `set_limit(2)` wakes
-    the repaired driver and item 1 starts; `set_limit(9)` clamps to 4; `set_limit(1)` with two
-    requests in service is admissible (nothing in flight) and leaves `used = 2 > limit = 1` until
-    they finish — the reason `in_service_weight_le_limit` asks for `NoLower` -/
-def schedD : List Act :=
-  [.arr ⟨0, 0, 1⟩, .notify, .poll, .deliver (some 0), .work 0, .disp, .arr ⟨1, 0, 1⟩, .notify, .limit 2,
-   .notify, .poll, .deliver (some 1), .work 1, .disp, .limit 9, .limit 1, .fin 0, .fin 1, .poll, .deliver none]
-
-example : Sched (cfgD .repaired) 1 { limit := 1 } schedD := by decide
-example : NoLower (cfgD .repaired) { limit := 1 } (schedD.take 15) ∧
-    ¬ NoLower (cfgD .repaired) { limit := 1 } (schedD.take 16) := by decide
-example : (final (cfgD .repaired) { limit := 1 } (schedD.take 15)).limit = 4 ∧
-    (final (cfgD .repaired) { limit := 1 } (schedD.take 15)).used = 2 := by decide
-example : let s := final (cfgD .repaired) { limit := 1 } (schedD.take 16)
-    s.limit = 1 ∧ s.used = 2 ∧ s.used = sumW (cfgD .repaired) s.inService := by decide
-example : (final (cfgD .repaired) { limit := 1 } schedD).completed = 2 ∧
-    quiescent (final (cfgD .repaired) { limit := 1 } schedD) = true := by decide
-/-- lowering the limit while a dequeued item is on its way to the worker is outside `Sched` -/
-example : ¬ Sched (cfgD .repaired) 1 { limit := 2 }
+example : ¬ Sched cfgAL 2 { limit := 4 } [.arr ⟨0, 0, 2⟩, .arr ⟨1, 0, 1⟩] := by decide
+/-- the dynamic schedule above is admissible for the proposal too; lowering the limit while a dequeued
+    item is on its way to the worker is outside `Sched` -/
+example : Sched cfgDyA 1 { limit := 1 } schedDyn ∧ (final cfgDyA { limit := 1 } schedDyn).completed = 2 := by
+  decide
+example : ¬ Sched cfgDyA 1 { limit := 2 }
     [.arr ⟨0, 0, 1⟩, .notify, .poll, .deliver (some 0), .limit 1] := by decide
 
-/-! ## Part C — /repo HEAD (`current`) falsifies the clauses -/
+/-! ## Part D — witnesses -/
 
-/-- deliveries of the unpatched implementation: a weighted pool of 3, two requests of weight 2 -/
+/-- a weighted pool of 3, two requests of weight 2 -/
 def schedH : List Act :=
   [.arr ⟨0, 0, 2⟩, .notify, .poll, .deliver (some 0), .work 0, .disp, .poll, .deliver none,
    .arr ⟨1, 0, 2⟩, .notify, .poll, .deliver (some 1), .work 1]
 
-/-- `has_capacity()` asks for one unit, the queue hands out a request of weight 2 with one unit free,
-    `acquire(2)` fails and the `Server` discards the accepted request.  Under `repaired` the same
-    poll (event 10) is answered empty and nothing is discarded. -/
-theorem weighted_head_discarded_current :
-    (run (cfgW .current) { limit := 3 } schedH).map (·.1) =
+/-- /repo HEAD: `has_capacity()` asks for one unit, the queue hands out a request of weight 2 with one
+    unit free, `acquire(2)` fails and the `Server` rejects the request and counts it: it takes no
+    capacity (`used` stays item 0's weight) and never starts.  With `admission` on the same poll
+    (event 10) is answered empty, nothing is rejected and item 1 stays queued. -/
+theorem weighted_head_rejected_and_counted :
+    (run { conc := .weighted } { limit := 3 } schedH).map (·.1) =
       [.accepted true, .polled true, .popped (some 0), .done, .started true, .polled true, .popped none,
        .polled false, .accepted true, .polled true, .popped (some 1), .done, .started false] ∧
-    (final (cfgW .current) { limit := 3 } schedH).rejected = 1 ∧
-    (final (cfgW .current) { limit := 3 } schedH).acc = 2 ∧
-    (final (cfgW .current) { limit := 3 } schedH).q = [] ∧
-    (step (cfgW .repaired) (final (cfgW .repaired) { limit := 3 } (schedH.take 10)) .poll).2 = .popped none ∧
-    (final (cfgW .repaired) { limit := 3 } (schedH.take 11)).rejected = 0 ∧
-    (final (cfgW .repaired) { limit := 3 } (schedH.take 11)).q = [⟨1, 0, 2⟩] := by decide
+    (final { conc := .weighted } { limit := 3 } schedH).rejected = 1 ∧
+    (final { conc := .weighted } { limit := 3 } schedH).acc = 2 ∧
+    (final { conc := .weighted } { limit := 3 } schedH).q = [] ∧
+    (final { conc := .weighted } { limit := 3 } schedH).used = 2 ∧
+    (final { conc := .weighted } { limit := 3 } schedH).inService = [⟨0, 0, 2⟩] ∧
+    (step { conc := .weighted, admission := true }
+      (final { conc := .weighted, admission := true } { limit := 3 } (schedH.take 10)) .poll).2 = .popped none ∧
+    (final { conc := .weighted, admission := true } { limit := 3 } (schedH.take 11)).rejected = 0 ∧
+    (final { conc := .weighted, admission := true } { limit := 3 } (schedH.take 11)).q = [⟨1, 0, 2⟩] := by
+  decide
 
-/-- the first 11 events are an admissible schedule of the repaired protocol -/
-example : Sched (cfgW .repaired) 0 { limit := 3 } (schedH.take 11) := by decide
+/-- the whole schedule is admissible at HEAD, its first 11 events for the proposal -/
+example : SchedD cfgH { limit := 3 } schedH ∧ Sched cfgA 0 { limit := 3 } (schedH.take 11) := by decide
 
 /-- item 0 in service, item 1 waiting, then `set_limit(2)` -/
 def schedU : List Act :=
   [.arr ⟨0, 0, 1⟩, .notify, .poll, .deliver (some 0), .work 0, .disp, .arr ⟨1, 0, 1⟩, .notify, .limit 2]
 
-/-- `DynamicConcurrency.set_limit` raises the limit and tells nobody: the component is quiescent,
-    a request waits and a unit is free — a strand until the next arrival or completion.  The
-    repaired `set_limit` leaves a `QueueNotifyEvent` pending. -/
+/-- the code before `wake`: `DynamicConcurrency.set_limit` raises the limit and tells nobody — the
+    component is quiescent, a request waits and a unit is free: a strand until the next arrival or
+    completion.  /repo HEAD (`wake` on) leaves a `QueueNotifyEvent` pending. -/
 theorem scale_up_strands_current :
-    (let s := final (cfgD .current) { limit := 1 } schedU
-     quiescent s = true ∧ s.q ≠ [] ∧ pick .fifo s.q = some ⟨1, 0, 1⟩ ∧
-       s.used + wOf (cfgD .current) ⟨1, 0, 1⟩ ≤ s.limit) ∧
-    (let s := final (cfgD .repaired) { limit := 1 } schedU
+    (let s := final { conc := .dynamic 1 (some 4), wake := false } { limit := 1 } schedU
+     quiescent s = true ∧ s.q ≠ [] ∧ s.used + 1 ≤ s.limit) ∧
+    (let s := final { conc := .dynamic 1 (some 4), wake := true } { limit := 1 } schedU
      s.nNotify = 1 ∧ quiescent s = false) := by decide
 
-example : Sched (cfgD .repaired) 1 { limit := 1 } schedU := by decide
-
-/-- the schedule hypothesis on `disp` is needed here too -/
-example : (final (cfgW .repaired) { limit := 2 }
-    [.arr ⟨0, 0, 1⟩, .arr ⟨1, 0, 2⟩, .notify, .poll, .deliver (some 0), .disp, .poll, .deliver (some 1),
-     .work 0, .work 1]).rejected = 1 := by decide
+example : SchedD cfgDy { limit := 1 } schedU ∧
+    SchedD { conc := .dynamic 1 (some 4), wake := false } { limit := 1 } schedU := by decide
 
 end HappyModel.C08.PipeW
